@@ -489,7 +489,7 @@ def check(pid, tier, seed, replay=None):
         "evaluations": int(stats.get("cases", 0)) + int(stats.get("oracle_checks", 0)),
         "distinct_nontrivial": int(stats.get("distinct", 0)),
         "rule": prop.get("rule", "cases are (function, arguments) requests generated by the harness; distinct = distinct request lines; all generated requests are non-trivial inputs of the modelled functions"),
-        "samples": stats.get("samples", [])[:12] or [{"note": "no harness samples"}],
+        "samples": (stats.get("samples") or [])[:12] or [{"note": "no harness samples"}],
         "correspondence": {"cases": ncases, "disagreements": len(mism), "first": mism[:3]},
         "oracle": {"checks": stats.get("oracle_checks", 0), "failures": len(oracle_fail),
                    "known": sorted(seen_known.keys()), "unlisted": len(unknown)},
